@@ -6,8 +6,10 @@ from fractions import Fraction
 from lib.core import *
 
 ID = "C10"
-PROPS_FILES = ["Gama/Props/C10.lean", "Gama/Props/C10YSign.lean", "Gama/Props/C10HomSites.lean"]
-LEAN_TARGETS = ["Gama.Props.C10", "Gama.Props.C10YSign", "Gama.Props.C10HomSites"]
+PROPS_FILES = ["Gama/Props/C10.lean", "Gama/Props/C10YSign.lean", "Gama/Props/C10HomSites.lean",
+               "Gama/Props/C10Accept.lean", "Gama/Props/C10Net.lean"]
+LEAN_TARGETS = ["Gama.Props.C10", "Gama.Props.C10YSign", "Gama.Props.C10HomSites",
+                "Gama.Props.C10Accept", "Gama.Props.C10Net"]
 DRIVERS = ["drv_cov"]
 RULE = ("CovMat/BandMat index maps for every dim 1..8 x band 0..dim-1 (exhaustive); band LDL' / Cholesky / forward "
         "substitution on SPD matrices L L' built from small integers, every band; Cluster::activeCov for EVERY active "
@@ -1494,7 +1496,8 @@ LEVEL_TEXT = ("Lean 4 theorems (all dimensions, band widths, masks, all field el
               "The internal y mirroring of inconsistent systems (LocalNetwork::change_y_signs_for_inconsistent_system_) is modelled as "
               "a whole; the boolean sign rule of the covariances is regenerated from network.cpp for the way in and the way out "
               "(updated_xml_covmat) and proved to be the exclusive or, i.e. C -> D C D (symmetric, positive definite iff C is, the "
-              "weighted problem of the mirrored description; the export writes back the input matrix).")
+              "weighted problem of the mirrored description; the export writes back the input matrix). "
+              "Round 9: at the LocalNetwork entry point the answer of netSolve (any algorithm, one input-side hypothesis) minimises m0^2 v' Sigma^-1 v with Sigma the FULL block covariance of the active observations (C10_network_solution_uses_full_covariance, witnessed on a band-1 cluster with an excluded observation); the output of the executable Homogenization::run model is the whitened system (W A, W b), W'W = m0^2 Sigma^-1, that envSolve factorises and prepareProjectEquations leaves (C10_sparse_path_is_homogenization_run); the two acceptance tests (relative N eps max-diag of CovMat::cholDec at parse time and in prepare - scale invariant, proved - versus absolute 1e-14 of BlockDiagonal::cholDec) are compared on their common exact pivots: agree iff, and both gaps with witnesses (C10-TINY and the reverse gap); repeated column indices: dense path and uncorrelated blocks sum, a correlated block of Homogenization::run keeps the last one (NEG witness, replayed).")
 LEVEL_NOTE = ("Trusted: Lean kernel, statements in Props/C10.lean and Props/C10YSign.lean, harness/c10_cov.cpp, harness/c10_ysign.cpp, "
               "tools/gen/c10_ysign.py (parses the two sign conditions; everything around them is matched against the modelled shape), "
               "generators and tolerances. IEEE rounding is "
